@@ -7,10 +7,10 @@ dir="/tmp/confirm_$$"
 rm -rf "$dir"; mkdir -p "$dir"
 (cd /repo && git archive HEAD) | tar -x -C "$dir"
 cd "$dir" && git init -q .
-run() { (cd "$dir" && PYTHONPATH="$dir/src" PYTHONWARNINGS=ignore timeout 600 /venv/bin/python "$d/demo.py" >/dev/null 2>&1); echo $?; }
+run() { (cd "$dir" && OMP_NUM_THREADS=2 PYTHONPATH="$dir/src" PYTHONWARNINGS=ignore timeout 900 /venv/bin/python "$d/demo.py" >/dev/null 2>&1); echo $?; }
 a=$(run)
 git apply "$d/patch.diff" || { echo "patch does not apply"; rm -rf "$dir"; exit 2; }
 b=$(run)
-t=$(cd "$dir" && PYTHONPATH="$dir/src" timeout 1500 /venv/bin/python -m pytest -q -p no:cacheprovider --timeout=900 "$@" 2>&1 | tail -1)
+t=$(cd "$dir" && OMP_NUM_THREADS=2 OPENBLAS_NUM_THREADS=2 PYTHONPATH="$dir/src" timeout 2400 /venv/bin/python -m pytest -q -p no:cacheprovider --timeout=900 "$@" 2>&1 | tail -1)
 echo "demo_without_patch_exit=$a demo_with_patch_exit=$b tests_with_patch: $t"
 rm -rf "$dir"
